@@ -360,7 +360,9 @@ pub fn eval_input(i: &Input, obs: &mut Obs) -> Result<(), Fail> {
             1 => run_script(SmlReader::from_iterator(stream.iter()), i, &files, &exp, "SmlReader::from_iterator (default buffer)"),
             _ => run_script(SmlReader::from_reader(ScriptReader::new(io_script(&stream, &i.interrupts)).0), i, &files, &exp, "SmlReader::from_reader (default buffer)"),
         },
-        1 => {
+        // a fixed buffer that holds the largest payload (the dispatch set ends at 140 000 bytes; beyond that
+        // the growable buffer is used)
+        1 if maxlen <= *CAPS.last().unwrap() => {
             let n = cap_at_least(maxlen).unwrap_or(*CAPS.last().unwrap());
             with_cap!(n, K => with_buffer::<K>(i, &stream, &files, &exp))
         }
